@@ -57,7 +57,7 @@ macro_rules! with_arity {
 }
 
 /// run the call sequence through the real builder; Ok(()) or the error kind
-pub fn replay<T: Sc>(calls: &[(String, Vec<String>, i64)]) -> Result<(), &'static str> {
+pub fn replay<T: Sc>(calls: &[(String, Vec<String>, i64)]) -> Result<Vec<String>, &'static str> {
     let mut b: Option<SeparableModelBuilder<T>> = None;
     for (op, names, n) in calls {
         let cur = b.take();
@@ -88,7 +88,24 @@ pub fn replay<T: Sc>(calls: &[(String, Vec<String>, i64)]) -> Result<(), &'stati
         });
     }
     match b.expect("empty sequence").build() {
-        Ok(_) => Ok(()),
+        Ok(model) => {
+            // C17: whatever the builder hands out is a model that never panics: exercise it
+            use varpro::model::SeparableNonlinearModel;
+            let mut panics = Vec::new();
+            if catch_unwind(AssertUnwindSafe(|| model.params())).is_err() {
+                panics.push("params()".to_string());
+            }
+            if catch_unwind(AssertUnwindSafe(|| model.eval().map(|_| ()))).is_err() {
+                panics.push("eval()".to_string());
+            }
+            let p = catch_unwind(AssertUnwindSafe(|| model.parameter_count())).unwrap_or(0);
+            for k in 0..=p {
+                if catch_unwind(AssertUnwindSafe(|| model.eval_partial_deriv(k).map(|_| ()))).is_err() {
+                    panics.push(format!("eval_partial_deriv({k})"));
+                }
+            }
+            Ok(panics)
+        }
         Err(e) => Err(kind_of(&e)),
     }
 }
@@ -98,8 +115,9 @@ fn judge<T: Sc>(idx: usize, l: &MbLine, rep: &mut Report) {
     let det = |what: &str, got: &str| json!({"line": idx, "scalar": T::NAME, "calls": l.c, "what": what, "got": got, "valid": l.v, "defects": l.d});
     match r {
         Err(_) => rep.violation("C15", det("builder panicked", "panic")),
-        Ok(Ok(())) => {
+        Ok(Ok(panics)) => {
             rep.check("C15", l.v, 0.0, || det("build() returned a model for an invalid specification", "Ok"));
+            rep.check("C17", panics.is_empty(), 0.0, || det("a model handed out by the builder panicked", &panics.join(", ")));
             if l.i != "ok" {
                 rep.count("spec_drift", 1);
             }
